@@ -1,14 +1,18 @@
 ------------------------------ MODULE ConvertMC ------------------------------
 (* The laws of C02 on the specification itself. *)
 EXTENDS ConvertCases
-CONSTANTS Space,   \* "nested", "sepkeys" or "table"
+CONSTANTS Space,   \* "nested", "sepkeys", "paths" or "table"
           Slices   \* the space is cut into this many slices, one initial state each (so that TLC's workers share it)
 VARIABLES r, p
-SX == INSTANCE SequencesExt
-TheSpace == CASE Space = "nested" -> NestedRecs [] Space = "sepkeys" -> SepKeyRecs [] Space = "table" -> {}
-SpaceSeq == SX!SetToSeq(TheSpace)
-Init == p \in 1..Slices /\ r = <<>>
-Next == r = <<>> /\ p' = p /\ r' \in {SpaceSeq[i] : i \in {k \in 1..Len(SpaceSeq) : k % Slices = p - 1}}
+TheSpace == CASE Space = "nested" -> NestedRecs [] Space = "sepkeys" -> SepKeyRecs [] Space = "paths" -> PathRecs [] Space = "table" -> {}
+\* a cheap structural hash, only to cut the space into slices
+RECURSIVE H(_)
+H(v) == IF IsS(v) THEN (IF v[2] = "" THEN 1 ELSE 2)
+        ELSE IF IsA(v) THEN (5 + Len(v[2]) + 7 * (IF Len(v[2]) >= 1 THEN H(v[2][1]) ELSE 0) + 11 * (IF Len(v[2]) >= 2 THEN H(v[2][2]) ELSE 0)) % 1009
+        ELSE (3 + Len(v[2]) + 13 * (IF Len(v[2]) >= 1 THEN H(v[2][1][2]) + Len(v[2][1][1]) + (IF v[2][1][1][1] = "a" THEN 1 ELSE IF v[2][1][1][1] = "1" THEN 2 ELSE 3) ELSE 0)
+                + 17 * (IF Len(v[2]) >= 2 THEN H(v[2][2][2]) + (IF v[2][2][1][1] = "a" THEN 1 ELSE IF v[2][2][1][1] = "1" THEN 2 ELSE 3) ELSE 0)) % 1009
+Init == p \in 0..(Slices - 1) /\ r = <<>>
+Next == r = <<>> /\ p' = p /\ r' \in {rec \in TheSpace : H(M(rec)) % Slices = p}
 
 One(rec) == <<rec>>
 JsonLike == {"json", "jsonl", "yaml"}
@@ -61,7 +65,7 @@ AllPathLaws == \A sep \in Seps : PathLaws(sep)
 
 \* flatten is injective on the domain: counted (the image has as many elements as the domain)
 DomainOf(sep) == {rec \in NestedRecs : InLawDomain(sep, rec)}
-Injective == \A sep \in {Dot} : Cardinality({Flatten(sep, rec) : rec \in DomainOf(sep)}) = Cardinality(DomainOf(sep))
+Injective == \A sep \in Seps : Cardinality({Flatten(sep, rec) : rec \in DomainOf(sep)}) = Cardinality(DomainOf(sep))
 \* the separator-freeness precondition is needed: some record with a separator inside a key does not come back
 NeedsSepFree == \E sep \in Seps : \E rec \in SepKeyRecs : ~RecKeysFree(sep, rec) /\ RecNoArrayLike(rec) /\ Unflatten(sep, Flatten(sep, rec)) # rec
 
